@@ -23,10 +23,10 @@ if surv:
         out.append(f"* `{n}` (targeted {', '.join(r[n]['expected'])}): {EQUIV.get(n, 'NOT YET EXPLAINED')}")
     out.append("")
 out.append("Invalid (listed for completeness): " + ", ".join(f"`{n}`" for n in sorted(invalid)) + ".\n")
-out.append("**Changes seeded by independent sub-agents** (two rounds of one per property; each confirmed in a scratch worktree: demonstration passes on the original, existing suite passes with the change, demonstration fails with the change; then all twenty quick checks were run against it). Round 1 asked for a change that needs something specific to manifest; round 2 (`-r2`) told the sub-agent that a boundary-value-oriented property-based harness exists and asked for a defect that is harder to find (conjunctions, deeper state, less obvious values). The last column is the result with the checks as committed (after the strengthening described in 12.1 / 12.4).\n")
+out.append("**Changes seeded by independent sub-agents** (three rounds of one per property; each confirmed in a scratch worktree: demonstration passes on the original, existing suite passes with the change, demonstration fails with the change; then all twenty quick checks were run against it). Round 1 asked for a change that needs something specific to manifest; round 2 (`-r2`) told the sub-agent that a boundary-value-oriented property-based harness exists and asked for a defect that is harder to find (conjunctions, deeper state, less obvious values); round 3 (`-r3`) additionally listed the two defects already caught for the property and the dimensions the harness had been extended with, and asked for a trigger in a dimension it is still unlikely to vary. The last column is the result with the checks as committed (after the strengthening described in 12.1 / 12.4).\n")
 out.append("| seeded for | what the change does (needs to manifest) | caught by |\n|---|---|---|")
 DESC = {}
-for f in sorted(glob.glob("/verif/seeded/*/meta.json"), key=lambda x: (x.split("/")[3].endswith("-r2"), x)):
+for f in sorted(glob.glob("/verif/seeded/*/meta.json"), key=lambda x: (x.split("/")[3][3:], x)):
     m = json.load(open(f)); sid = f.split("/")[3]
     notes = ""
     try:
